@@ -131,6 +131,9 @@ def plan(tier, seed):
     which = range(nsh) if run == 'all' else [(seed * run + s) % nsh for s in range(run)]
     for s in which:
       jobs.append({'kind': 'ctx', 'name': 'ctx%d.%d.%d' % (k, md, s), 'k': k, 'maxdepth': md, 'shard': s, 'nshards': nsh, 'complete': run == 'all'})
+  # "a sequence stops at its first terminal node" has a clock in it as well: a node whose body returned in time is not
+  # terminal, however late its thread is seen to exit (virtual-time engine of C12, stalls past the deadline)
+  jobs.append({'kind': 'stall', 'name': 'stall'})
   return jobs
 
 
@@ -142,6 +145,21 @@ def run_job(job, acct):
   elif job['kind'] == 'hyp':
     hyp.search(acct, progs.programs(strict=job['strict'], with_test_start=True), lambda p: check(p, job['strict']),
                seed=job['hseed'], max_examples=job['n'], known=known)
+  elif job['kind'] == 'stall':
+    from vf.props import c12  # pylint: disable=g-import-not-at-top
+    c12.setup_lines()
+    for t in (0.5, 3.0):
+      for pos in ('alone', 'main', 'setup'):
+        for kind in ('returns', 'late'):
+          case = {'t': t, 'd': 0.0, 'kind': kind, 'pos': pos, 'rot': False}
+          _, s0 = c12.check_timeout(dict(case, trace=True))
+          for c2 in c12.stalled_variants(case, s0):
+            r2, _ = c12.check_timeout(c2)
+            acct.case({'stall': c2}, True, ['stall', 'pos:' + pos])
+            for sig, detail in r2.violations:
+              if sig in ('C12/timeout/false-timeout', 'C12/timeout/own-result-lost'):
+                sig2 = 'C02/non-terminal-node-stopped-the-sequence'
+                (acct.known if sig2 in known else acct.violation)(sig2, {'stall': c2}, detail)
   elif job['kind'] == 'ctx':
     for i, (cname, prog) in enumerate(progs.enumerate_in_contexts(job['k'], job['maxdepth'])):
       if i % job['nshards'] != job['shard']:
@@ -168,4 +186,9 @@ def run_job(job, acct):
 
 
 def replay(case):
+  if 'stall' in case:
+    from vf.props import c12  # pylint: disable=g-import-not-at-top
+    c12.setup_lines()
+    return [('C02/non-terminal-node-stopped-the-sequence', d) for sig, d in c12.check_timeout(case['stall'])[0].violations
+            if sig in ('C12/timeout/false-timeout', 'C12/timeout/own-result-lost')]
   return check(case).violations
